@@ -260,6 +260,36 @@ def c05_dialect_frames(rep, tier, coverage, ctx):
                                "frame_rejections": n, "explanation": "result columns of the statement emitted for each of the 12 dialects, computed by SqlScope.tla from the re-parsed text, compared with the specified frame (SqlScopeTrace, rule FrameOk)"},
             "traces_validated_against_impl": coverage["traces_validated_against_impl"] + sr["judged"]}
 
+def c03_let_family(rep, tier, coverage, ctx):
+    """C03 across declarations: a relation sorted inside a let (or a sort followed by group {} (take n)) and taken from
+    in the consumer, followed by a transform that forces the take into a sub-query: sort x projection x take x follower."""
+    a, b, k = col("a"), col("b"), col("k")
+    sorts = [sort(("desc", "a"), ("asc", "k")), sort(("asc", "b"), ("desc", "k")), sort(("desc", "k")), sort(("asc", bin_("+", a, k)), ("asc", "k"))]
+    projs = [None, select(item("k"), item("a"), item("b")), select(item("a"), item("k")), derive(item(bin_("*", k, lit(2)), "d"))]
+    takes = [take(1, 2), take(2, 3, True), take(1, 1), take(2, INF, True)]
+    after = [None, filter_(bin_(">", k, lit(0))), derive(item(bin_("+", k, lit(1)), "z")), sort(("asc", "k")), aggregate(item(agg("count", k), "n")),
+             join("inner", [from_("u")], eqcol("k")), select(item("k")), group(["a"], [aggregate(item(agg("count", k), "n"))]), take(1, 1)]
+    progs = []
+    for so in sorts:
+        for pr in projs:
+            for tk in takes:
+                for af in after:
+                    if pr is not None and pr["op"] == "select" and len(pr["items"]) == 2 and af is not None and af["op"] == "join":
+                        pass
+                    inner = [from_("t"), so] + ([pr] if pr else [])
+                    for surface in (("let",) if tier == "quick" and len(progs) % 3 else ("let", "into")):
+                        d = {"kind": "let", "name": "rel1", "short": "rel1", "steps": inner, "params": [], "named": [], "body": {"t": "lit"}, "surface": surface, "module": ""}
+                        progs.append({"id": f"let{len(progs)}", "decl": True, "decls": [d], "steps": [from_("rel1"), tk] + ([af] if af else [])})
+    for p in progs:
+        for st_ in p["steps"] + p["decls"][0]["steps"]:
+            st_.setdefault("at", [])
+    dbset = os.path.join(ROOT, "corpus", "dbs_quick.json" if tier == "quick" else "dbs_thorough.json")
+    res = l1check.run(rep, "C03-let", progs, dbset, CONFIG["C03"]["relevant"])
+    return {"let_family": {"programs": len(progs), "accepted": res["accepted"], "rejected": res["rejected"], "not_judged": res["skipped"],
+                           "explanation": "relation sorted inside a let / into declaration, then take in the consumer, then a transform forcing a sub-query"},
+            "traces_validated_against_impl": coverage["traces_validated_against_impl"] + res["accepted"] + res["rejected"]}
+
+CONFIG["C03"]["extra"] = c03_let_family
 CONFIG["C05"]["extra"] = c05_dialect_frames
 
 def check(pid, tier, extra=None):
